@@ -526,8 +526,58 @@ def runList (c : Case) (drain : Bool) (ops : Array QOp) : CaseOut := Id.run do
                      ("popaftermove", toString stt.popAfterMove), ("lclear", toString stt.clear),
                      ("lmaxlen", toString stt.maxLen)] }
 
+/-! ### bulk cases: closed form of the recency-list specification
+
+After pushing the distinct keys 0..n-1 (value = key) into an empty cache of capacity cap ≥ 1 the specification
+(`Tbx.LruL0`: a new key at full capacity removes exactly the least recently used entry) leaves the last
+m = min n cap keys, most recent first; `get` does not change membership; `clear` empties the cache; every value
+is dropped exactly once by the time the cache is gone.  The cases are far too long for the list-based models
+(10^6 entries); the lines below are that closed form. -/
+
+def bulkSamples (cap n : Nat) : List Nat :=
+  let b := n - cap
+  let v := [0, 1, b - 1, b, b + 1, n / 2, n - 2, n - 1, n, n + 1]
+  (sortNat v).eraseDups
+
+def bulkLines (cap n : Nat) (clear : Bool) : Array String :=
+  let m := min n cap
+  let has (k : Nat) : Bool := decide (k < n ∧ n - m ≤ k)
+  let keys := bulkSamples cap n
+  let fr := if n = 0 then "none" else s!"{n-1}:{n-1}"
+  let a : Array String := #[s!"D bulk len={m} empty={if m = 0 then 1 else 0}",
+    s!"D bulk has={String.join (keys.map fun k => bit (has k))} front={fr}",
+    s!"D bulk get={joinWith "," (keys.map fun k => if has k then toString k else "none")} len={m}",
+    s!"F bulk evicted sum={n - m} min={if n = m then 0 else 0} max={if n > m then 1 else 0}"]
+  let a := if clear then
+      (a.push "D bulk cleared len=0 empty=1").push s!"F bulk cleared sum={n} min={if n = 0 then 0 else 1} max={if n = 0 then 0 else 1}"
+        |>.push "D bulk reuse len=1 has=1"
+    else a
+  let tot := n + (if clear then 1 else 0)
+  a.push s!"D bulk end sum={tot} min={if tot = 0 then 0 else 1} max={if tot = 0 then 0 else 1}"
+
+def bulkListLines (n : Nat) (clear : Bool) : Array String :=
+  let a : Array String := #[s!"D bulk len={n} front={if n = 0 then "none" else toString (n-1)}"]
+  let a := if clear then a.push "D bulk cleared len=0" else a
+  a.push s!"D bulk end sum={n} min={if n = 0 then 0 else 1} max={if n = 0 then 0 else 1}"
+
+def judgeBulk (c : Case) (expected : Array String) : CaseOut :=
+  let dExp := expected.toList.filter (·.startsWith "D ")
+  let dGot := c.impl.toList.filter (·.startsWith "D ")
+  let verdict : Verdict :=
+    if dGot == dExp then .ok
+    else
+      let bad := (dExp.zip (dGot ++ List.replicate dExp.length "<missing>")).find? fun (e, g) => e != g
+      match bad with
+      | some (e, g) => .fail s!"bulk history differs from the recency-list specification: expected [{e}] got [{g}] ({" | ".intercalate (c.impl.toList.take 3)})"
+      | none => .fail s!"bulk history: unexpected extra observations {dGot.drop dExp.length}"
+  { model := expected, verdict := verdict, stats := [("nontrivial", "1"), ("bulk", "1")] }
+
 def handle (c : Case) : CaseOut :=
   match (c.ops.toList.head?).map words with
+  | some ["B", cap, n, cl] =>
+    if parseNat! cap = 0 then { model := #[], verdict := .skip "capacity 0" }
+    else judgeBulk c (bulkLines (parseNat! cap) (parseNat! n) (cl == "1"))
+  | some ["BL", n, cl] => judgeBulk c (bulkListLines (parseNat! n) (cl == "1"))
   | some ["L", cap, nk] =>
     match (c.ops.toList.drop 1).mapM parseLOp with
     | some ops => runLru c (parseNat! cap) (parseNat! nk) ops.toArray
